@@ -179,9 +179,66 @@ func runPrestate(o *opts) {
 		all = append(all, ts...)
 		c.cleanup()
 	}
+	// the PARENT of a file artifact is a pre-existing entry too: an empty directory the user made, or a
+	// link to a directory kept elsewhere. A checkout that cannot place the file leaves them alone.
+	nparent := 6
+	if o.tier == "thorough" {
+		nparent = 40
+	}
+	for k := 0; k < nparent; k++ {
+		rr := r.fork()
+		base := scenarioDir(o, "prestatep", k)
+		p := newProject(o, base, []string{"in", "abs"}[k%2])
+		p.init()
+		must(os.MkdirAll(filepath.Join(p.Root, "data"), 0o755))
+		must(os.WriteFile(filepath.Join(p.Root, "data", "model.bin"), append([]byte("committed model "), rr.bytes(20)...), 0o644))
+		p.writeStage("s.yaml", &StageRec{Out: []Art{{Path: "data/model.bin"}}})
+		if res := p.dud("", "stage", "add", "s.yaml"); res.Exit != 0 {
+			must(fmt.Errorf("prestate parent setup: %s", res.Stderr))
+		}
+		if res := p.dud("", "commit", "--copy"); res.Exit != 0 {
+			must(fmt.Errorf("prestate parent commit: %s", res.Stderr))
+		}
+		rmrf(filepath.Join(p.Root, "data"))
+		shape := []string{"symlinked-parent-with-a-different-file", "empty-parent-object-missing", "symlinked-empty-parent-object-missing"}[k%3]
+		obs9 := false
+		switch shape {
+		case "symlinked-parent-with-a-different-file":
+			must(os.MkdirAll(filepath.Join(p.Root, "store"), 0o755))
+			must(os.WriteFile(filepath.Join(p.Root, "store", "model.bin"), []byte("the user's own bytes"), 0o644))
+			must(os.WriteFile(filepath.Join(p.Root, "store", "notes.txt"), []byte("notes"), 0o644))
+			must(os.Symlink("store", filepath.Join(p.Root, "data")))
+			obs9 = true // the model has no linked directories on artifact paths: statements only
+		case "empty-parent-object-missing", "symlinked-empty-parent-object-missing":
+			if shape == "empty-parent-object-missing" {
+				must(os.MkdirAll(filepath.Join(p.Root, "data"), 0o755))
+			} else {
+				must(os.MkdirAll(filepath.Join(p.Root, "store"), 0o755))
+				must(os.Symlink("store", filepath.Join(p.Root, "data")))
+				obs9 = true
+			}
+			for _, ob := range p.observe().Cache {
+				os.Remove(cachePathOf(p.CacheDir, ob.Digest))
+			}
+		}
+		t, _ := p.do(Cmd{Kind: "checkout", Copy: rr.chance(1, 2)}, nil, want(5, 21, 8, 9, 13), nil, nil)
+		if obs9 {
+			t.Obs = append(t.Obs, 9)
+		}
+		t.Info["step"] = "checkout that cannot place data/model.bin"
+		t.Info["parent"] = shape
+		tag([]*Transition{t}, "prestate", 5000+k, map[string]interface{}{"kind": "file-in-pre-existing-parent"})
+		all = append(all, t)
+		s.count("parent:" + shape)
+		distinct["parent"+shape] = true
+		rmrf(base)
+		if p.CacheCfg != "" && filepath.Dir(p.CacheDir) != base {
+			rmrf(filepath.Dir(p.CacheDir))
+		}
+	}
 	s.Cases = len(all)
 	s.Nontrivial = len(distinct)
-	s.Rule = "committed artifact x a pre-existing workspace state per manifest entry (absent, correct link, link to other object, dangling link, foreign link, equal file, different file, dir-for-file, file-for-dir, link-for-dir, extra files) x strategy; non-trivial = at least one pre-existing entry collides with a manifest entry; distinct by pre-state tree"
+	s.Rule = "file artifacts below a pre-existing parent (empty directory, link to a directory) that checkout cannot place: the parent stays; committed artifact x a pre-existing workspace state per manifest entry (absent, correct link, link to other object, dangling link, foreign link, equal file, different file, dir-for-file, file-for-dir, link-for-dir, extra files) x strategy; non-trivial = at least one pre-existing entry collides with a manifest entry; distinct by pre-state tree"
 	if len(all) > 0 {
 		s.Samples = append(s.Samples, all[0].Info, all[len(all)/2].Info)
 	}
@@ -563,6 +620,9 @@ func runCorrupt(o *opts) {
 
 // ---------------- C05 ----------------
 
+// forceInPlace: the next edit is a change of a file's bytes, written in place when the file is regular
+var forceInPlace bool
+
 // applyEdit performs one user edit inside the artifact at abs; returns a label or "" if not applicable.
 func applyEdit(r *rng, p *Project, c *committed, abs string) string {
 	// collect entries as they are on disk now
@@ -595,15 +655,24 @@ func applyEdit(r *rng, p *Project, c *committed, abs string) string {
 	}
 	rewrite := func(e ent, b []byte) {
 		fp := filepath.Join(abs, e.rel)
-		os.Remove(fp) // never write through a link into the cache
-		must(os.WriteFile(fp, b, 0o644))
+		if fi, err := os.Lstat(fp); err == nil && fi.Mode().IsRegular() && (r.chance(1, 2) || forceInPlace) {
+			// a regular file (a copy; whatever its mode - the harness runs as root) is edited IN PLACE, as `echo >> f` or an editor does:
+			// the bytes are the user's own, nothing else may change with them
+			must(os.WriteFile(fp, b, 0o644))
+		} else {
+			os.Remove(fp) // never write through a link into the cache
+			must(os.WriteFile(fp, b, 0o644))
+		}
 		if r.chance(1, 3) {
 			// timestamps as cp -p / tar / rsync -t leave them: older than anything dud wrote
 			old := time.Date(2001, 2, 3, 4, 5, 6, 0, time.UTC)
 			must(os.Chtimes(fp, old, old))
 		}
 	}
-	kind := []string{"flip", "truncate", "append", "add-file", "add-dir", "delete", "rename", "retarget", "dangle", "file-to-dir", "dir-to-file", "link-to-copy", "none", "edit-below-norec", "append-nul", "truncate-nul", "drop-object", "drop-object", "retarget", "retarget", "file-to-dir", "dir-to-file", "dir-to-file"}[r.intn(23)]
+	kind := []string{"flip", "truncate", "append", "add-file", "add-dir", "delete", "rename", "retarget", "dangle", "file-to-dir", "dir-to-file", "link-to-copy", "none", "edit-below-norec", "append-nul", "truncate-nul", "drop-object", "drop-object", "retarget", "retarget", "file-to-dir", "dir-to-file", "dir-to-file", "delete-subdir", "root-to-file", "delete-root"}[r.intn(26)]
+	if forceInPlace {
+		kind = []string{"append", "flip", "truncate"}[r.intn(3)]
+	}
 	switch kind {
 	case "flip", "truncate", "append", "delete", "rename", "retarget", "dangle", "file-to-dir", "link-to-copy", "append-nul", "truncate-nul", "drop-object":
 		if len(files) == 0 {
@@ -703,6 +772,21 @@ func applyEdit(r *rng, p *Project, c *committed, abs string) string {
 		d := dirs[1+r.intn(len(dirs)-1)]
 		rmrf(filepath.Join(abs, d.rel))
 		must(os.WriteFile(filepath.Join(abs, d.rel), []byte("was a dir"), 0o644))
+	case "delete-subdir":
+		if len(dirs) < 2 {
+			return ""
+		}
+		rmrf(filepath.Join(abs, dirs[1+r.intn(len(dirs)-1)].rel))
+	case "root-to-file":
+		// the whole directory artifact is replaced by a regular file
+		if cur.Kind != "d" {
+			return ""
+		}
+		rmrf(abs)
+		must(os.WriteFile(abs, []byte("was the whole directory"), 0o644))
+	case "delete-root":
+		// the whole artifact is gone
+		rmrf(abs)
 	case "edit-below-norec":
 		if c.kind != "norec" || len(dirs) < 2 {
 			return ""
@@ -825,7 +909,7 @@ func runHist(o *opts) {
 	distinct := map[string]bool{}
 	for i := 0; i < n; i++ {
 		rr := r.fork()
-		c := setupCommitted(o, rr, s, "hist", i, []string{"dir", "dir", "norec", "file"}, treeOpts{maxDepth: 2, maxFan: 4, hostile: rr.chance(1, 3), allowEmptyDir: true})
+		c := setupCommitted(o, rr, s, "hist", i, []string{"dir", "dir", "norec", "file"}, treeOpts{maxDepth: 2, maxFan: 4, hostile: rr.chance(1, 3), allowEmptyDir: true, cacheNames: true})
 		c.ts[0].Specs = want(11, 7, 1)
 		all = append(all, c.ts[0])
 		if !c.ts[0].OK {
@@ -837,9 +921,22 @@ func runHist(o *opts) {
 		steps := 1 + rr.intn(3)
 		w := c.w
 		lastOK := false
+		if rr.chance(1, 3) {
+			// the user wants plain, editable files: copies instead of links
+			t, w2 := p.do(Cmd{Kind: "checkout", Copy: true}, nil, want(11, 1, 12, 14), nil, nil)
+			t.Info["step"] = "checkout --copy before the edits"
+			all = append(all, t)
+			s.count("checkout-copy-before-edits")
+			if t.OK {
+				w = w2
+				c.w = w
+				forceInPlace = true // ... and then edits one of them where it is
+			}
+		}
 		for k := 0; k < steps; k++ {
 			lastOK = false
 			ek := applyEdit(rr, p, c, abs)
+			forceInPlace = false
 			if ek == "" || ek == "dangle" || ek == "drop-object" {
 				// dangling links (also: links whose object was dropped from the cache) cannot be
 				// committed (by design); skip those edits. A link re-pointed at ANOTHER object of the
@@ -852,9 +949,9 @@ func runHist(o *opts) {
 				continue
 			}
 			s.count("edit:" + ek)
-			sp := want(11, 7, 1, 14)
-			if c.kind == "file" && (ek == "delete" || ek == "rename" || ek == "file-to-dir") {
-				sp = want(5, 1) // the output itself vanished / changed kind: commit must refuse
+			sp := want(11, 7, 1, 14, 12)
+			if (c.kind == "file" && (ek == "delete" || ek == "rename" || ek == "file-to-dir")) || ek == "root-to-file" || ek == "delete-root" {
+				sp = want(5, 1, 12) // the output itself vanished / changed kind: commit must refuse
 			}
 			t, w2 := p.do(Cmd{Kind: "commit", Copy: rr.chance(1, 2)}, nil, sp, nil, nil)
 			t.Info["step"] = fmt.Sprintf("recommit after %s", ek)
